@@ -51,7 +51,7 @@ def run(chk):
                 'formats plus image only; status, image and the complete pretty-print text (scratch paths normalised) must be '
                 'identical across the processes. Cases: every include-graph configuration of Include.tla (copies of a file in '
                 'different directories carry different bytes, so reading a different copy changes the image), rendered Asm '
-                'programs with includes / registers, and the repository example programs. Non-trivial = distinct (case, format).')
+                'programs with includes / registers, vocabularies with names that extend one another, operand sets whose same-type operands accept the same text (definition order has to decide), and the repository example programs. Non-trivial = distinct (case, format).')
     chk.assumptions = ['hash seeds are sampled, not exhausted: ' + str(nseeds) + ' seeds per case',
                        'absolute scratch paths in listings are normalised before comparison']
     res = tlc.run_tlc('Include', c17.include_cfg(['A', 'B'], ['d1', 'd2'] if not quick else ['d1']), workers=1)
@@ -97,6 +97,25 @@ def run(chk):
         for fmt in FORMATS:
             cases.append({'config': isagen.dump(cfg), 'files': {'main.asm': src}, 'pretty': fmt})
             tags.append(('vocabulary', json.dumps({'mnemonics': mn, 'keys': list(keys)}), fmt))
+    # operand sets whose operands are of the same type and accept the same text: the first in definition order has to win in every process
+    for variant in range(2 if quick else 6):
+        names = [['short', 'long_form', 'wide', 'x', 'alpha9', 'zz'], ['n8', 'n16', 'n4', 'n12', 'q', 'number'], ['a', 'bb', 'ccc', 'dddd', 'e5', 'f_6'],
+                 ['op_one', 'op_two', 'op_three', 'op_four', 'op_five', 'op_six'], ['k1', 'k2', 'k3', 'k4', 'k5', 'k6'], ['m', 'mm', 'mmm', 'mmmm', 'n', 'nn']][variant]
+        nums = {n: {'type': 'numeric', 'bytecode': {'value': i + 1, 'size': 8}, 'argument': {'size': 8 * (1 + i % 2), 'byte_align': True}} for i, n in enumerate(names)}
+        inds = {n: ({'type': 'indirect_register', 'register': 'sp', 'bytecode': {'value': 0x40 + i, 'size': 8}} if i % 2 == 0 else
+                    {'type': 'indirect_register', 'register': 'sp', 'bytecode': {'value': 0x40 + i, 'size': 8}, 'offset': {'size': 8, 'byte_align': True}})
+                for i, n in enumerate(names)}
+        enums = {n: {'type': 'numeric_enumeration', 'bytecode': {'size': 8, 'value_dict': {7: 0x80 + i, 20 + i: 0x90 + i}}} for i, n in enumerate(names)}
+        cfg = {'description': 'same-type operands', 'general': isagen.base_general('big', registers=['sp']),
+               'operand_sets': {'nums': {'operand_values': nums}, 'inds': {'operand_values': inds}, 'enums': {'operand_values': enums}},
+               'instructions': {'ldn': {'bytecode': {'value': 1, 'size': 8}, 'operands': {'count': 1, 'operand_sets': {'list': ['nums']}}},
+                                'ldi': {'bytecode': {'value': 2, 'size': 8}, 'operands': {'count': 1, 'operand_sets': {'list': ['inds']}}},
+                                'lde': {'bytecode': {'value': 3, 'size': 8}, 'operands': {'count': 1, 'operand_sets': {'list': ['enums']}}},
+                                'ld2': {'bytecode': {'value': 4, 'size': 8}, 'operands': {'count': 2, 'operand_sets': {'list': ['inds', 'nums']}}}}}
+        src = 'start:\nldn 5\nldi [sp]\nldi [sp+3]\nlde 7\nld2 [sp], 7\nafter:\n.2byte after\n'
+        for fmt in FORMATS:
+            cases.append({'config': isagen.dump(cfg), 'files': {'main.asm': src}, 'pretty': fmt})
+            tags.append(('same-type-operands', json.dumps(names), fmt))
     # repository programs (absolute paths: run in place, include dir = their directory)
     ncorp = 0
     for cfg, src, inc in corpus.corpus_programs():
@@ -147,6 +166,8 @@ def run(chk):
         chk.traces += len(outs)
         chk.nontriv(t)
         ref = outs[0][i]
+        if t[0] in ('same-type-operands', 'corpus') and ref['status'] != 'ok':
+            chk.machinery(f'{t[0]} case is meant to assemble but does not: {ref["msg"][:160]}')
         for k in range(1, len(outs)):
             o = outs[k][i]
             diffs = [f for f in ('status', 'image', 'pretty') if o[f] != ref[f]]
